@@ -62,6 +62,24 @@ def parse_cases(rng, tier):
                b"1.5", b"01.50", b"1..5", b"1.5.", b".", b"..", b"", b" 1", b"1 ", b"+1", b"-1", b"1e5", b"0x10", b"1,5", b"1_000",
                b"\xd9\xa1", b"1.\xd9\xa1", str(W256).encode() + b".5", b"5." + str(W256).encode(), b"9" * 100, b"9" * 78, b"1" + b"0" * 77,
                b"1" + b"0" * 78, b"0" * 200 + b"7", b"123456789012345678901234567890.123456789012345678"]
+    # every string up to length 4 over digits, the dot and the characters integer parsers of other libraries accept
+    # (signs, exponent marker, blank, digit separator); and one such character inserted at / substituted for every
+    # position of longer numerals
+    wide = b"05.+-e _"
+    for k in range(1, 5 if tier == "thorough" else 4):
+        for t in itertools.product(wide, repeat=k):
+            t = bytes(t)
+            if any(c in b"+-e _" for c in t):
+                cases.append(str_case("d_fromstr", t, "exhaustive-small"))
+                if k <= 3:
+                    cases.append(str_case("u_fromstr", t, "exhaustive-small"))
+    for base in (b"12.345", b"0.3", b"1.05", b"7", b"100.000000000000000001", b"115792089237316195423570985008687907853269984665640564039457.5"):
+        for i in range(len(base) + 1):
+            for ch in (b"+", b"-", b"e", b" ", b"_"):
+                for t in (base[:i] + ch + base[i:], base[:i] + ch + base[i + 1:]):
+                    cases.append(str_case("d_fromstr", t, "directed-boundary"))
+                    if b"." not in t:
+                        cases.append(str_case("u_fromstr", t, "directed-boundary"))
     for s in special:
         cases.append(str_case("d_fromstr", s, "directed-boundary"))
         cases.append(str_case("u_fromstr", s, "directed-boundary"))
